@@ -169,7 +169,7 @@ const byteCeiling = 3 << 30
 func Analyse20(f Family20) (Report20, string) {
 	sizes := f.Sizes
 	if len(sizes) == 0 {
-		sizes = []int{1000, 4000, 16000}
+		sizes = DefaultSizes20()
 	}
 	rep := Report20{Family: f}
 	// warm-up (one-time initialisation is not cost of this input)
@@ -373,6 +373,15 @@ var P20 = core.Register(core.Prop[Family20]{
 	Gen:   Gen20,
 	Check: Check20,
 })
+
+// DefaultSizes20: n, 4n, 16n — and 64n in the thorough tier, where a super-linear term with a small
+// constant has more room to show (a measurement above the byte ceiling ends the series early).
+func DefaultSizes20() []int {
+	if currentTier() == "thorough" {
+		return []int{1000, 4000, 16000, 64000}
+	}
+	return []int{1000, 4000, 16000}
+}
 
 func currentTier() string {
 	if t := tierOverride; t != "" {
